@@ -1,5 +1,5 @@
 #!/bin/bash
-# usage: tools/selftest.sh [-j N] [<property-id> ...]
+# usage: [ST_MATCH=<regexp on the patch path>] tools/selftest.sh [-j N] [<property-id> ...]
 # Must-fail corpus: every stored property-breaking change (selftest/mutants/*.patch = the pre-fix versions of
 # the defects D1..D10; seeded/<id>-mN/patch.diff = changes produced by independent sub-agents; selftest/local/
 # <id>/*.patch = hand-made ones) is applied to a scratch copy of /repo's working tree (never to /repo) and the
@@ -12,6 +12,8 @@ J=3
 if [ "$1" = "-j" ]; then J=$2; shift 2; fi
 want=" $* "
 export GOFLAGS=-mod=mod GOPROXY=off
+# solver processes per check: the CPUs are divided among the J checks running side by side
+PROCS=$(( $(nproc) / J )); [ $PROCS -lt 2 ] && PROCS=2; export PROCS
 [ -x bin/govc ] || (cd govc && go build -o /verif/bin/govc .)
 list=$(mktemp)
 python3 - "$want" > "$list" <<'PY'
@@ -30,6 +32,7 @@ for pf in sorted(glob.glob('/verif/selftest/local/*/*.patch')):
     out.append((pf.split('/')[-2],pf))
 for pr,pf in out:
     if want and pr not in want: continue
+    if os.environ.get('ST_MATCH') and not __import__('re').search(os.environ['ST_MATCH'],pf): continue
     aff=subprocess.run(['python3','/verif/tools/props_for_patch.py',pf],capture_output=True,text=True).stdout.split()
     if pr not in aff: aff=[pr]+aff
     aff=[pr]+[a for a in aff if a!=pr]
@@ -45,7 +48,7 @@ run_one() {
   # the property the change was written against is checked first; if it stays silent the other claimed
   # properties with a unit in a touched package are tried (every check runs on every change in practice)
   for p in $(echo "$all" | tr ',' ' '); do
-    out=$(GOVC_REPO="$s/rolling-shutter" GOVC_OUT="$s/out" GOVC_SELFTEST=1 timeout 1200 /verif/bin/govc check -prop "$p" -tier quick 2>&1); code=$?
+    out=$(GOVC_REPO="$s/rolling-shutter" GOVC_OUT="$s/out" GOVC_SELFTEST=1 GOVC_PROCS=$PROCS timeout 2400 /verif/bin/govc check -prop "$p" -tier quick 2>&1); code=$?
     first=$(echo "$out" | grep '^VIOLATION' | sed 's/.*obligation="//; s/\[.*//' | sort | uniq -c | awk '{printf "%s(x%s) ", $2, $1}' | cut -c1-400)
     if [ $code -eq 1 ] && [ -n "$first" ]; then
       if [ "$p" = "$prop" ]; then echo "SELFTEST detected $prop $patch :: $first"; else echo "SELFTEST detected $prop $patch (by the check of $p) :: $first"; fi
